@@ -22,16 +22,20 @@ func OpenFilesToChan(filenames <-chan string, gunzip bool, concurrency int, batc
 		bufferedFilenames := bufferChan(filenames, 1000)
 		for filename := range bufferedFilenames {
 			sema <- struct{}{}
+			verifTrace("sema.acq", filename, 0, 0)
 
 			wg.Add(1)
 			readCount++
 			out.setSourceCount(readCount + len(bufferedFilenames))
 
 			go func(goFilename string) {
+				verifTrace("rd.start", goFilename, 0, 0)
 				defer func() {
+					verifTrace("sema.rel", goFilename, 0, 0)
 					<-sema
 					wg.Done()
 					out.stopFileReading(goFilename)
+					verifTrace("rd.end", goFilename, 0, 0)
 				}()
 
 				var file io.ReadCloser
@@ -49,6 +53,7 @@ func OpenFilesToChan(filenames <-chan string, gunzip bool, concurrency int, batc
 		}
 
 		wg.Wait()
+		verifTrace("c.wait", "", 0, 0)
 		out.close()
 	}()
 
